@@ -295,7 +295,58 @@ def grow_segment(F, R):
     R.ob('PAIR', 'PAIR::%s::relocation-allocates-and-releases' % fnkey(f), bool(al) and bool(de) and all(f.dominates(a, d) for a in al for d in de), 'when the own segment cannot grow the chunk: allocate() a new chunk (%d site(s)), then deallocate() the old one (%d site(s))' % (len(al), len(de)), (al + de)[0].where if (al + de) else f.file, f)
 
 
+def header_layout_agreement(F, R):
+    """The size reserved for [header | user header | payload] (all_headers_len, used by chunk_layout) and the address computations that place
+    the user header and the payload (user_header_ptr_from_header, payload_ptr_from_header) are the same formula: with the header at address
+    0, payload_ptr_from_header equals all_headers_len.  A disagreement reserves too little: a payload reaches into the neighbouring chunk."""
+    M = 'iceoryx2::service::static_config::message_type_details::MessageTypeDetails::'
+    try:
+        ahl = sym_nstr(core.sym_place(F.fn(M + 'all_headers_len'), [0]))
+        pp = sym_nstr(core.sym_place(F.fn(M + 'payload_ptr_from_header'), [0]))
+        up = sym_nstr(core.sym_place(F.fn(M + 'user_header_ptr_from_header'), [0]))
+    except core.AnchorMissing as e:
+        R.missing(str(e))
+        return
+    strip = lambda t: re.sub(r'cast(<\w+>)?\(', '(', t)
+    upz = strip(up).replace('(header)', '0').replace('(0 + ', '(').replace('(header + ', '(')
+    ppz = strip(pp).replace('(MessageTypeDetails::user_header_ptr_from_header(self, header))', upz)
+    norm = lambda t: re.sub(r'\(\(([^()]*)\)\)', r'(\1)', re.sub(r'\s+', ' ', t))
+    def flat(t):
+        prev = None
+        while prev != t:
+            prev = t
+            t = re.sub(r'\(\((math::align\([^()]*(?:\([^()]*\)[^()]*)*\))\)', r'(\1', t)
+            t = re.sub(r'^\((math::align\(.*\))\)$', r'\1', t)
+            t = t.replace('((', '(').replace('))', ')') if False else t
+        return t
+    a, b = norm(strip(ahl)), norm(ppz)
+    # compare modulo redundant parentheses
+    key = lambda t: re.sub(r'[()]', '', t)
+    R.ob('SYM-EQ', 'SYM-EQ::%sall_headers_len::agrees-with-payload-address' % M, key(a) == key(b), 'all_headers_len = `%s` ; payload_ptr_from_header(header = 0) = `%s` ; required equal (same alignment of the user header and of the payload in both)' % (a[:150], b[:150]), '%s:%s' % (F.fn(M + 'all_headers_len').file, F.fn(M + 'all_headers_len').line), F.fn(M + 'all_headers_len'))
+    cl = sym_nstr(core.sym_place(F.fn(M + 'chunk_layout'), [0]))
+    R.ob('FLOW', 'FLOW::%schunk_layout::uses-all_headers_len' % M, 'all_headers_len(self)' in cl and 'number_of_elements' in cl, 'chunk_layout = %s' % cl[:160], '%s:%s' % (F.fn(M + 'chunk_layout').file, F.fn(M + 'chunk_layout').line), F.fn(M + 'chunk_layout'))
+
+
+def view_refcount(F, R):
+    """Receiver side of a resizable segment (DynamicView): every offset that is translated for the user is registered in its segment's chunk
+    count - on the arm that maps a new segment AND on the arm for an already mapped one; otherwise releasing one of several held samples of
+    an old segment unmaps it under the others."""
+    fs = [f for f in F.find_fns(r'resizable_shared_memory::dynamic::DynamicView<.*>::register_and_translate_offset$|resizable_shared_memory::dynamic::DynamicView<.*> as .*>::register_and_translate_offset$')]
+    if len(fs) != 1:
+        R.missing('DynamicView::register_and_translate_offset (found %d)' % len(fs))
+        return
+    f = fs[0]
+    reg = f.calls(r'ShmEntry::<.*>::register_offset$|ShmEntry::register_offset$')
+    oks = f.ok_exit_sites()
+    pth = None
+    for o in oks:
+        pth = pth or f.exists_path(None, [o], reg, from_entry=True)
+    R.ob('PAIR', 'PAIR::%s::every-translated-offset-is-registered' % fnkey(f), bool(reg) and bool(oks) and pth is None, 'every path to Ok(address) passes register_offset() (%d site(s))%s' % (len(reg), '' if pth is None else ' -- a path skips it: %s' % pth), reg[0].where if reg else '%s:%s' % (f.file, f.line), f)
+
+
 def check(F, R, tier):
+    header_layout_agreement(F, R)
+    view_refcount(F, R)
     from . import C08
     C08.segment_size(F, R)   # the static data segment reserves the worst-case alignment slack (every configured chunk fits)
     grow_segment(F, R)
